@@ -218,6 +218,7 @@ def write_evidence(prop, pm, tier, seed, results, wall, known_lines):
             "solver_time_s": round(z3t, 2),
             "engine_cpu_s": round(cpu, 2),
             "functions_encoded": fns,
+            "repo_src": sorted(set(str(r.get("repo_src")) for r in results)),
             "source_cuts": cuts,
             "environment_stubs": notes,
             "known_finding_lines": known_lines,
